@@ -338,7 +338,7 @@ class DescriptorTransaction(_TransactionBase):
                         self._increment_parent_descriptor_version(proc, orig_descriptor)
                 else:
                     # this is an update operation
-                    proc.descr_updated.append(new_descriptor)
+                    proc.descr_updated.append(new_descriptor.mk_copy())  # the mdib shares values with new_descriptor
                     self._logger.debug(  # noqa: PLE1205
                         'transaction_manager: update descriptor Handle={}, DescriptorVersion={}',
                         new_descriptor.Handle, new_descriptor.DescriptorVersion)
